@@ -154,6 +154,20 @@ def run_case(case):
             events.append(judge("rdm1/" + name, r, 1e-10, "C01/%s/rdm1" % kind, trace_up=float(np.trace(got[0]).real),
                                 trace_dn=float(np.trace(got[1]).real)))
             cnt["rdm"] += 1
+        # history on ONE wave_data dict: read the 1-RDM, change the trial parameters in place, read it again
+        rng3 = np.random.default_rng(case["s"] + 8)
+        t3 = trials.make(kind, norb, (na, nb), rng3, orthonormal=True)
+        wd_hist = dict(t2["wave_data"])
+        had_key = "rdm1" in wd_hist
+        first = np.asarray(t2["trial"].get_rdm1(wd_hist))
+        _ = t2["trial"].get_init_walkers(wd_hist, 2, restricted=False)
+        for k_, v_ in t3["wave_data"].items():
+            wd_hist[k_] = v_
+        second = np.asarray(t2["trial"].get_rdm1(wd_hist))
+        ref3 = F.rdm1(t3["psi"])
+        events.append(judge("rdm1/follows-parameter-change", float(np.max(np.abs(second - ref3))), 1e-10, "C01/%s/rdm1-after-parameter-change" % kind,
+                            gained_rdm1_key=bool(("rdm1" in wd_hist) and not had_key)))
+        cnt["rdm"] += 1
     return {"events": events, "nontrivial": nontrivial > 0, "sample": sample, "counters": cnt}
 
 
